@@ -290,6 +290,14 @@ def _flow_monitor(op, im):
     return None
 
 
+FLOWSTRESS = ops_family("flowstress", "^TestFlowStress$", ["flowstress"],
+                        monitor=lambda op, im: ("sender-stranded" if im.startswith("STRANDED") else
+                                                "conforming-sender-overran-window" if im.startswith("OVERRUN") else None),
+                        rule="free-running stress of the real defaultSender/defaultReceiver (no hooks, zero-cost sendFunc, real parallelism), six window/message "
+                             "configurations; a watchdog reports a sender that stays parked although everything it sent was read and credited back",
+                        n_quick=1, n_thorough=4, env={"VERIF_MS": "2000"})
+
+
 _FLOW_RULE = ("real defaultSender/defaultReceiver stepped by the harness at the verif yield points inside a synctest bubble; "
               "one line per atomic model action, full hook-visible state compared after each; configurations: windows 1..4 (dense "
               "interleavings), small windows with empty messages, real 64 KiB/16 KiB constants, reader budgets, cancellation; "
@@ -728,7 +736,7 @@ PROPS = {
     "C05": {
         "lean_targets": ["Proofs.Props.C05"],
         "prop_files": ["Proofs/Props/C05.lean"],
-        "families": [FLOW, tiered(FLOWEX, FLOWEX_DEEP)],
+        "families": [FLOW, tiered(FLOWEX, FLOWEX_DEEP), FLOWSTRESS],
         "side_conditions": ["Proofs.Facts.chunkMax_pos", "Proofs.Facts.window_eq"],
         "trusted_base": ["L-atomic model TunnelModel/FlowStep.lean (one action = one atomic operation / critical section of flow_control.go)",
                          "verif yield points in defaultSender.send / updateWindow (repo hooks, tag verif)"],
